@@ -85,7 +85,8 @@ def handler? (j : Json) : Option H := do
   let d ← jBool? (← jField? j "d")
   some { fn := fn, func := func, id := id, changing := ch, selector := sel, subresourceOk := sub, labels := l,
          annotations := a, «when» := w, field := f, value := v, old := o, new := n,
-         fieldNeedsChange := fnc, requiresFinalizer := rf, kind := ⟨r, i, d⟩ }
+         fieldNeedsChange := fnc, requiresFinalizer := rf,
+         kind := { reason := r, initial := i, deletedOptIn := d } }
 
 def strMap? (j : Json) : Option (String → Option String) := do
   match j with
@@ -104,9 +105,10 @@ def cause? (j : Json) : Option C := do
   let r ← jStr? (← jField? j "r") >>= reasonOf?
   let i ← jBool? (← jField? j "i")
   let m ← jBool? (← jField? j "m")
-  -- `dicts.resolve(d, path, absent)`: a missing key or a non-mapping parent gives the token
-  some { changing := ch, labels := l, annotations := a, body := b.resolve?, old := o.resolve?,
-         new := n.resolve?, kind := ⟨r, i, m⟩ }
+  -- `dicts.resolve(d, path, absent)`: a missing key or a non-mapping parent gives the token;
+  -- `cause.old is None` (JSON null) is `noOld` (and resolves to the token everywhere)
+  some { changing := ch, noOld := o.isNull, labels := l, annotations := a, body := b.resolve?, old := o.resolve?,
+         new := n.resolve?, kind := { reason := r, initial := i, marked := m } }
 
 def handlers? (j : Json) : Option (List H) := do (← jArr? j).mapM handler?
 
